@@ -96,7 +96,7 @@ def generate(seed: int, tier: str) -> dict:
             discipline=profile,
             n_vars=wr.randint(3, 8 if tier == "quick" else 12),
             max_depth=2,
-            wide=wide_knob(wr, tier, 0.12),
+            wide=wide_knob(wr, tier, 0.12, cap=300),
         )
     ir = st["inputs"]
     situation = gen_situation(ir, world, max_persons=4)
